@@ -67,6 +67,13 @@ def units(rng, tier):
             v2 = [rng.randint(10 ** 5, 10 ** 6) for _ in range(rng.randint(2, 3))] + [rng.randint(1, 5) for _ in range(rng.randint(1, 4))]
             v2[1] = v2[0] + rng.randint(-2, 2)
             us.append(mk(rng, "cg", rng.choice([2, 3]), v2, "huge+tiny", fmt="list"))
+    # the CKK search itself: number of heaps popped from its stack (every popped heap is bounded once; the bound function is wrapped),
+    # compared with the model's node count - a pruning or ordering change shows here long before it changes an optimum
+    for _ in range(400 if tier == "quick" else 5000):
+        vals, fam = gen.values(rng, nmax=8, vmax=2 ** 40)
+        p = {"keep": rng.random() < 0.6, "k": rng.choice([1, 2, 2, 3, 3, 4, 5])}
+        p.update(gen.with_format(rng, vals, rng.choice(["list", "dict_str", "dict_int"])))
+        us.append({"kind": "ckk_nodes", "params": p, "cmp": "nodes", "family": "ckk-search-nodes/" + fam})
     for vals, k in HARD:
         for a in ("dp", "cg", "ckk", "snp", "rnp", "ilp"):
             v = vals[:6] if a == "dp" else vals
@@ -100,6 +107,8 @@ def result_sums(p, impl):
 
 def judge_requests(u, impl, model):
     p = u["params"]
+    if u["kind"] == "ckk_nodes":
+        return [("py", None, f"ckk did not complete: {impl['exc']} on {p}")] if "exc" in impl else []
     a = p["algo"]
     o, ok = p.get("objective", [2, 0])
     desc = f"{a}(numbins={p['k']}, items={UN.short(p['vals'], 150)}, objective {o}/{ok}, switches {p.get('flags', '-')}, format {p['fmt']}, output {p['out']})"
@@ -123,7 +132,7 @@ def judge_requests(u, impl, model):
 
 def known_finding(u, impl, model, mismatch, judged, known):
     p = u["params"]
-    if p["algo"] != "rnp" or model is None:
+    if p.get("algo") != "rnp" or model is None:
         return None
     by = {f["id"]: f for f in known["findings"]}
     if impl.get("exc") == "IndexError" and model.get("exc") == "IndexError" and not mismatch:
@@ -139,7 +148,7 @@ def known_finding(u, impl, model, mismatch, judged, known):
 
 def extra_checks(rng, tier, us, oc):
     out = []
-    idx = [i for i, u in enumerate(us) if u["params"]["algo"] == "ilp"]
+    idx = [i for i, u in enumerate(us) if u["params"].get("algo") == "ilp"]
     reqs = []
     for i in idx:
         p = us[i]["params"]
@@ -187,7 +196,7 @@ def nontrivial(u, impl, model):
 
 
 def shrinkable(u):
-    return u["params"]["algo"] != "ilp"
+    return u["kind"] == "part" and u["params"]["algo"] != "ilp"
 
 
 def demonstrate_known(known, evaluate):
